@@ -854,6 +854,89 @@ pub fn devices_history(cfg: &RandCfg, rng: &mut StdRng, r: &mut Recorder, client
     r.emit(json!({"op":"Snapshot","posts":posts}));
 }
 
+/// Directed-random re-join after a fork (C01 / C02 / C03 / C20): an admin walks down a branch of its own while the other admin
+/// removes it on the competing branch and later invites it back; the returning member then meets every event of both branches
+/// (its own old commits, its removal, the traffic of the branch it missed) in random order.
+pub fn rejoin_history(cfg: &RandCfg, rng: &mut StdRng, r: &mut Recorder, clients: &[&str]) {
+    let mut w = World::new(cfg.mdk.clone());
+    for (i, c) in clients.iter().enumerate() {
+        let be = match cfg.backend.as_str() { "mixed" => if (i + cfg.seed as usize) % 2 == 0 { "mem" } else { "sql" }, x => x };
+        w.add_client(c, be);
+    }
+    r.emit(json!({"op":"Reset"}));
+    let g = "g1";
+    r.emit(w.op_create("c1", g, &["c2".to_string(), "c3".to_string()], &["c1".to_string(), "c2".to_string()]));
+    let step = |w: &mut World, r: &mut Recorder, a: Value| -> Value { let v = exec_action(w, &a); r.emit(v.clone()); v };
+    let mut clock = 60u64;
+    let mut rk = 0u64;
+    // c1's own branch: d1 commits (late timestamps: they lose), applied by merge or by echo, with some traffic
+    let d1 = rng.gen_range(1..4);
+    for i in 0..d1 {
+        clock += 1; rk += 1;
+        let kd = ["rename", "self_update", "redesc"][rng.gen_range(0..3)];
+        let v = step(&mut w, r, json!({"op":"Commit","c":"c1","g":g,"kind":kd,"arg":format!("a{i}"),"ts":clock + 100,"rank":rk}));
+        if v["res"] != json!("Ok") { break; }
+        if rng.gen_bool(0.5) { step(&mut w, r, json!({"op":"Merge","c":"c1","g":g})); }
+        else { step(&mut w, r, json!({"op":"Deliver","c":"c1","e":v["e"],"ts":clock + 100,"rank":0})); }
+        if rng.gen_bool(0.5) { step(&mut w, r, json!({"op":"Send","c":"c1","g":g,"ts":clock + 100,"rank":0,"mts":clock})); }
+    }
+    // the competing branch: c2 removes c1, commits d2 more times, then invites c1 back
+    clock += 1; rk += 1;
+    let rm = step(&mut w, r, json!({"op":"Commit","c":"c2","g":g,"kind":"remove","arg":["c1"],"ts":clock,"rank":rk}));
+    if rm["res"] != json!("Ok") { return; }
+    step(&mut w, r, json!({"op":"Merge","c":"c2","g":g}));
+    step(&mut w, r, json!({"op":"Deliver","c":"c3","e":rm["e"],"ts":clock,"rank":0}));
+    for i in 0..rng.gen_range(0..3) {
+        clock += 1; rk += 1;
+        let who = if rng.gen_bool(0.7) { "c2" } else { "c3" };
+        if who == "c2" {
+            let v = step(&mut w, r, json!({"op":"Commit","c":"c2","g":g,"kind":"rename","arg":format!("b{i}"),"ts":clock,"rank":rk}));
+            if v["res"] == json!("Ok") { step(&mut w, r, json!({"op":"Merge","c":"c2","g":g})); step(&mut w, r, json!({"op":"Deliver","c":"c3","e":v["e"],"ts":clock,"rank":0})); }
+        } else {
+            let v = step(&mut w, r, json!({"op":"Send","c":"c3","g":g,"ts":clock,"rank":0,"mts":clock}));
+            if v["res"] == json!("Ok") { step(&mut w, r, json!({"op":"Deliver","c":"c2","e":v["e"],"ts":clock,"rank":0})); }
+        }
+    }
+    clock += 1; rk += 1;
+    let ad = step(&mut w, r, json!({"op":"Commit","c":"c2","g":g,"kind":"add","arg":["c1"],"ts":clock,"rank":rk}));
+    if ad["res"] != json!("Ok") { return; }
+    step(&mut w, r, json!({"op":"Merge","c":"c2","g":g}));
+    step(&mut w, r, json!({"op":"Deliver","c":"c3","e":ad["e"],"ts":clock,"rank":0}));
+    let wn = ad["welcomes"][0].as_str().unwrap().to_string();
+    // c1 may see part of the other branch before it comes back
+    if rng.gen_bool(0.4) { step(&mut w, r, json!({"op":"Deliver","c":"c1","e":rm["e"],"ts":clock,"rank":0})); }
+    step(&mut w, r, json!({"op":"Welcome","c":"c1","w":wn,"what":"process","fresh":false}));
+    step(&mut w, r, json!({"op":"Welcome","c":"c1","w":wn,"what":"accept","fresh":false}));
+    // traffic after the return
+    for s in ["c2", "c1", "c3"] {
+        if rng.gen_bool(0.7) {
+            clock += 1;
+            let v = step(&mut w, r, json!({"op":"Send","c":s,"g":g,"ts":clock,"rank":0,"mts":clock}));
+            if v["res"] == json!("Ok") { for c in ["c1", "c2", "c3"] { step(&mut w, r, json!({"op":"Deliver","c":c,"e":v["e"],"ts":clock,"rank":0})); } }
+        }
+    }
+    if rng.gen_bool(0.5) {
+        clock += 1; rk += 1;
+        let v = step(&mut w, r, json!({"op":"Commit","c":"c2","g":g,"kind":"rename","arg":"after","ts":clock,"rank":rk}));
+        if v["res"] == json!("Ok") { step(&mut w, r, json!({"op":"Merge","c":"c2","g":g})); for c in ["c1", "c3"] { step(&mut w, r, json!({"op":"Deliver","c":c,"e":v["e"],"ts":clock,"rank":0})); } }
+    }
+    // everything is offered to everybody until nothing changes
+    let mut stable = false; let mut passes = 0;
+    for _ in 0..4 {
+        passes += 1;
+        let before: Vec<Value> = ["c1", "c2", "c3"].iter().map(|c| w.project(c, g)).collect();
+        let mut order: Vec<(String, String)> = vec![];
+        for e in &w.ev_order { for c in ["c1", "c2", "c3"] { order.push((c.to_string(), e.clone())); } }
+        order.shuffle(rng);
+        for (c, e) in order { step(&mut w, r, json!({"op":"Deliver","c":c,"e":e,"ts":clock + 5,"rank":0})); }
+        let after: Vec<Value> = ["c1", "c2", "c3"].iter().map(|c| w.project(c, g)).collect();
+        if before == after { stable = true; break; }
+    }
+    let posts: Vec<Value> = clients.iter().map(|c| json!({"c":c,"g":g,"post":w.project(c, g)})).collect();
+    if stable { r.emit(json!({"op":"Quiesce","passes":passes,"stable":true,"regime":"free","posts":posts})); }
+    else { r.emit(json!({"op":"Snapshot","posts":posts})); }
+}
+
 pub fn run_random(cfg: &RandCfg, r: &mut Recorder) {
     let clients = ["c1", "c2", "c3", "c4"];
     let sql: Vec<&str> = match cfg.backend.as_str() {
@@ -871,6 +954,7 @@ pub fn run_random(cfg: &RandCfg, r: &mut Recorder) {
         else if cfg.profile == "props" { props_history(cfg, &mut rng, r, &clients); }
         else if cfg.profile == "leaf" { leaf_history(cfg, &mut rng, r, &clients); }
         else if cfg.profile == "devices" { devices_history(cfg, &mut rng, r, &clients); }
+        else if cfg.profile == "rejoin" { rejoin_history(cfg, &mut rng, r, &clients); }
         else { random_history(cfg, &mut rng, r, &clients); }
     }
 }
